@@ -42,3 +42,6 @@ import NbioVerif.Lemmas.SrcBridgeConn
 #print axioms ConnFull.sendfileLoop_denyDup_wl
 #print axioms ConnFull.c01_sendfile_nodup
 #print axioms ConnFull.src_maxCache
+#print axioms ConnFull.fileRange_eq
+#print axioms ConnFull.foldPending_eq
+#print axioms ConnFull.pending_length
